@@ -94,6 +94,17 @@ func child(args []string) int {
 			if k := os.Getenv("VERIF_ONLY_KIND"); k != "" && plan[i].Kind != k {
 				continue // debugging aid: run one scenario kind only
 			}
+			// scenarios marked plain=1 of a race-detector property run in a lane of their own with the plain
+			// binary (windows of a few instructions that the race detector's slowdown closes)
+			if plan[i].N["plain"] == 1 && p.Race() {
+				if os.Getenv("VERIF_PLAIN_LANE") == "1" {
+					list = append(list, plan[i])
+				}
+				continue
+			}
+			if os.Getenv("VERIF_PLAIN_LANE") == "1" {
+				continue
+			}
 			if i%*of == *shard {
 				list = append(list, plan[i])
 			}
@@ -224,8 +235,12 @@ func drive(args []string) int {
 	)
 
 	if *replay != "" {
-		cmd := exec.Command(*childBin, "child", "-prop", p.ID(), "-replay", *replay, "-reps", "5")
-		cmd.Env = env
+		rbin, renv := *childBin, env
+		if b, err := os.ReadFile(*replay); err == nil && strings.Contains(string(b), `"plain": 1`) || strings.Contains(string(b), `"plain":1`) {
+			rbin, renv = strings.TrimSuffix(*childBin, "-race"), append(append([]string{}, env...), "VERIF_PLAIN_LANE=1")
+		}
+		cmd := exec.Command(rbin, "child", "-prop", p.ID(), "-replay", *replay, "-reps", "5")
+		cmd.Env = renv
 		outp, _ := cmd.CombinedOutput()
 		viol := 0
 		for _, line := range strings.Split(string(outp), "\n") {
@@ -270,6 +285,21 @@ func drive(args []string) int {
 
 	shards := make([]*shardState, nch)
 	var wg sync.WaitGroup
+	nPlain := 0
+	for _, sc := range plan {
+		if sc.N["plain"] == 1 {
+			nPlain++
+		}
+	}
+	if p.Race() && nPlain > 0 && strings.HasSuffix(*childBin, "-race") {
+		sh := &shardState{id: 0, outFile: filepath.Join(work, "shardplain.out"), errFile: filepath.Join(work, "shardplain.err")}
+		shards = append(shards, sh)
+		wg.Add(1)
+		go func() {
+			defer wg.Done()
+			runShard(p, sh, strings.TrimSuffix(*childBin, "-race"), *tier, *seed, 1, append(append([]string{}, env...), "VERIF_PLAIN_LANE=1"))
+		}()
+	}
 	for i := 0; i < nch; i++ {
 		sh := &shardState{id: i, outFile: filepath.Join(work, fmt.Sprintf("shard%d.out", i)), errFile: filepath.Join(work, fmt.Sprintf("shard%d.err", i))}
 		shards[i] = sh
